@@ -52,7 +52,8 @@ def DType.fill : DType → Cell
   | .string => .s []
   | _ => .i 0
 
-/-- value range / kind of the cells a dataset of this dtype can hold -/
+/-- value range / kind of the cells a dataset of this dtype can hold (a double is any bit pattern; the
+model does not bound the `Nat` that carries it) -/
 def cellOk : DType → Cell → Bool
   | .bool, .b _ => true
   | .int8, .i v => decide (-128 ≤ v) && decide (v < 128)
@@ -64,7 +65,7 @@ def cellOk : DType → Cell → Bool
   | .uint32, .i v => decide (0 ≤ v) && decide (v < 4294967296)
   | .uint64, .i v => decide (0 ≤ v) && decide (v < 18446744073709551616)
   | .float32, .f bits => decide (bits < 4294967296)
-  | .float64, .f bits => decide (bits < 18446744073709551616)
+  | .float64, .f _ => true
   | .string, .s _ => true
   | _, _ => false
 
@@ -218,6 +219,11 @@ no branch of `get_dtype` accepts -/
 def Input.asElem : Input → PyVal
   | .scalar v => v
   | _ => .other
+
+/-- `if not isinstance(data, list): data = [data]` (`section.py:454-455`) -/
+def Input.asListData : Input → Input
+  | .list vs => .list vs
+  | other => .list [other.asElem]
 
 def PyVal.isEmptyStr : PyVal → Bool
   | .pyStr [] | .npStr [] => true
@@ -435,6 +441,12 @@ inductive PKey where
   | idx (i : Int)
   deriving DecidableEq, Repr, Inhabited
 
+/-- `Container.__getitem__` with an `int`: negative positions count from the end; out of range ⇒
+IndexError (`none`) -/
+def normIdx (n : Nat) (i : Int) : Option Nat :=
+  let j := if i < 0 then (n : Int) + i else i
+  if j < 0 ∨ j ≥ n then none else some j.toNat
+
 /-- `Container.__getitem__` on `props` (`container.py:39-48`, `h5group.py:175-205`): a position, or
 `get_by_id_or_name`.  The real dispatch is on `util.is_uuid(key)`: a key that parses as a UUID is
 first searched among the ids and, when no entity carries it as id, among the names; any other key
@@ -442,10 +454,10 @@ only among the names.  Ids come from a fresh supply, so a string the caller chos
 an id string is never a name: a `name` key is found by name whatever it looks like, an `id` key by id. -/
 def findProp (st : State) : PKey → Except Err PropRec
   | .idx i =>
-    let n : Int := st.props.length
-    let j := if i < 0 then n + i else i
-    if j < 0 ∨ j ≥ n then .error .indexError
-    else match st.props[j.toNat]? with
+    match normIdx st.props.length i with
+    | none => .error .indexError
+    | some j =>
+      match st.props[j]? with
       | some p => .ok p
       | none => .error .indexError
   | .key (.id n) =>
@@ -490,6 +502,10 @@ def TypeArg.resolve : TypeArg → Except Err DType
   | .pyFloat => .ok .float64
   | .pyStr => .error .typeError
 
+def resolveDtype : TypeArg ⊕ DType → Except Err DType
+  | .inl t => t.resolve
+  | .inr d => .ok d
+
 /-- dtype inference and consistency scan of `create_property` (`section.py:134-163`): the dtype
 (unresolved for a type argument), `len(vals)`, and the list later assigned to `prop.values` -/
 def createPlan (inp : Input) : Except Err ((TypeArg ⊕ DType) × Nat × Input) :=
@@ -522,6 +538,11 @@ def createPlan (inp : Input) : Except Err ((TypeArg ⊕ DType) × Nat × Input) 
       | .ok d => .ok (.inr d, n, .ndarray dt shape data)
     | _ :: _ :: _ => .error .valueError            -- `vals[0]` is itself an array
 
+/-- `Property.create_new`: a dataset of the initial shape (`(8,)` when no values are given), holding
+fill values until `prop.values = vals` runs -/
+def newProp (st : State) (name : Str) (d : DType) (n : Nat) : PropRec :=
+  { name := name, id := st.next, dtype := d, vals := List.replicate (if n == 0 then 8 else n) d.fill }
+
 /-- `Section.create_property` without `copy_from` (`section.py:127-169`) and
 `Property.create_new` (`property.py:98-118`).  When the final `prop.values = vals` is refused the
 freshly created property stays behind (with the fill values of its initial shape). -/
@@ -533,16 +554,10 @@ def createProperty (st : State) (name : Str) (inp : Input) : State × Except Err
     | .ok (dt, n, vals) =>
       if !nameOk name then (st, .error .valueError)
       else
-        let dres : Except Err DType := match dt with
-          | .inl t => t.resolve
-          | .inr d => .ok d
-        match dres with
+        match resolveDtype dt with
         | .error e => (st, .error e)
         | .ok d =>
-          let p0 : PropRec :=
-            { name := name, id := st.next, dtype := d,
-              vals := List.replicate (if n == 0 then 8 else n) d.fill }
-          let r := setValues p0 vals
+          let r := setValues (newProp st name d n) vals
           ({ st with props := st.props ++ [r.1], next := st.next + 1 }, r.2)
 
 /-- `Section.create_section` (`section.py:65-86`) -/
@@ -605,9 +620,7 @@ def setitem (st : State) (key : Str) (v : SetVal) : State × Except Err Unit :=
   match v with
   | .S ty => createSection st key ty
   | .val inp =>
-    let data : Input := match inp with
-      | .list vs => .list vs
-      | other => .list [other.asElem]
+    let data : Input := inp.asListData
     if !propsContains st (.name key) then createProperty st key data
     else
       match findProp st (.key (.name key)) with
